@@ -706,7 +706,7 @@ func (pi *preInliner) inlineInFile(pkg *packages.Package, f *ast.File, helpers m
 			return true // an ordinary call
 		}
 		sig := fn.Type().(*types.Signature)
-		if sig.Params().Len() != 0 || sig.Results().Len() != 0 {
+		if sig.Variadic() {
 			return true
 		}
 		if sel, isSel := cur.Node().(*ast.SelectorExpr); isSel {
@@ -725,8 +725,52 @@ func (pi *preInliner) inlineInFile(pkg *packages.Package, f *ast.File, helpers m
 				return true
 			}
 		}
+		qualOK := true
+		qual := func(p *types.Package) string {
+			if p == pkg.Types {
+				return ""
+			}
+			for _, imp := range f.Imports {
+				if strings.Trim(imp.Path.Value, `"`) == p.Path() {
+					if imp.Name != nil {
+						if imp.Name.Name == "_" || imp.Name.Name == "." {
+							break
+						}
+						return imp.Name.Name
+					}
+					return p.Name()
+				}
+			}
+			qualOK = false
+			return p.Name()
+		}
+		params := &ast.FieldList{}
 		inner := &ast.CallExpr{Fun: cur.Node().(ast.Expr)}
-		lit := &ast.FuncLit{Type: &ast.FuncType{Params: &ast.FieldList{}}, Body: &ast.BlockStmt{List: []ast.Stmt{&ast.ExprStmt{X: inner}}}}
+		for i := 0; i < sig.Params().Len(); i++ {
+			te, err := parser.ParseExpr(types.TypeString(sig.Params().At(i).Type(), qual))
+			if err != nil || !qualOK {
+				return true
+			}
+			name := fmt.Sprintf("__p%d", i)
+			params.List = append(params.List, &ast.Field{Names: []*ast.Ident{ast.NewIdent(name)}, Type: te})
+			inner.Args = append(inner.Args, ast.NewIdent(name))
+		}
+		var results *ast.FieldList
+		if sig.Results().Len() > 0 {
+			results = &ast.FieldList{}
+			for i := 0; i < sig.Results().Len(); i++ {
+				te, err := parser.ParseExpr(types.TypeString(sig.Results().At(i).Type(), qual))
+				if err != nil || !qualOK {
+					return true
+				}
+				results.List = append(results.List, &ast.Field{Type: te})
+			}
+		}
+		var bodyStmt ast.Stmt = &ast.ExprStmt{X: inner}
+		if results != nil {
+			bodyStmt = &ast.ReturnStmt{Results: []ast.Expr{inner}}
+		}
+		lit := &ast.FuncLit{Type: &ast.FuncType{Params: params, Results: results}, Body: &ast.BlockStmt{List: []ast.Stmt{bodyStmt}}}
 		cur.Replace(lit)
 		changed[f] = true
 		pi.logf("value use of helper %s at %s rewritten as func() { … }", helpers[fn].key, pkg.Fset.Position(id.Pos()))
@@ -1120,6 +1164,9 @@ func typeOnly(s string) string {
 	return s
 }
 
+// typeAliases: "dir:NewType" -> "dir:OldType" for renamed struct types (filled by detectFieldRenames)
+var typeAliases = map[string]string{}
+
 // detectFieldRenames returns (dir -> type -> newName -> oldName).
 func detectFieldRenames(repo string) (map[string]map[string]map[string]string, []string) {
 	known := map[string]string{}
@@ -1138,6 +1185,65 @@ func detectFieldRenames(repo string) (map[string]map[string]map[string]string, [
 	for _, l := range ls {
 		k, t, _ := strings.Cut(l, "\t")
 		cur[k] = t
+	}
+	// renamed struct types: a confirmed struct that is gone while exactly one new struct with the same sequence of
+	// field types exists in the same directory
+	structSeq := func(m map[string]string) map[string][]string {
+		tmp := map[string]map[int]string{}
+		for k, t := range m {
+			j := strings.LastIndex(k, ".")
+			dt := k[:j]
+			i := strings.LastIndex(t, "#")
+			idx := 0
+			fmt.Sscanf(t[i+1:], "%d", &idx)
+			if tmp[dt] == nil {
+				tmp[dt] = map[int]string{}
+			}
+			tmp[dt][idx] = t[:i]
+		}
+		out := map[string][]string{}
+		for dt, mm := range tmp {
+			seq := make([]string, len(mm)+8)
+			for i, t := range mm {
+				if i < len(seq) {
+					seq[i] = t
+				}
+			}
+			out[dt] = seq
+		}
+		return out
+	}
+	knownSeq, curSeq := structSeq(known), structSeq(cur)
+	typeAliases = map[string]string{}
+	for kdt, kseq := range knownSeq {
+		if _, still := curSeq[kdt]; still {
+			continue
+		}
+		kdir := kdt[:strings.Index(kdt, ":")]
+		var cands []string
+		for cdt, cseq := range curSeq {
+			if _, isKnown := knownSeq[cdt]; isKnown || cdt[:strings.Index(cdt, ":")] != kdir {
+				continue
+			}
+			if strings.Join(cseq, "|") == strings.Join(kseq, "|") {
+				cands = append(cands, cdt)
+			}
+		}
+		if len(cands) == 1 {
+			typeAliases[cands[0]] = kdt
+		}
+	}
+	if len(typeAliases) > 0 {
+		translated := map[string]string{}
+		for k, t := range cur {
+			j := strings.LastIndex(k, ".")
+			if old, ok := typeAliases[k[:j]]; ok {
+				translated[old+k[j:]] = t
+			} else {
+				translated[k] = t
+			}
+		}
+		cur = translated
 	}
 	split := func(k string) (dirType, name string) {
 		j := strings.LastIndex(k, ".")
@@ -1194,6 +1300,17 @@ func detectFieldRenames(repo string) (map[string]map[string]map[string]string, [
 		res[dir][typ][nn] = mn
 		log = append(log, fmt.Sprintf("field %s.%s is taken for the renamed %s (same struct, same type, the old name is gone); it is analysed under its confirmed name", typ, nn, m))
 	}
+	for nw, old := range typeAliases {
+		i := strings.Index(old, ":")
+		dir, typ := old[:i], old[i+1:]
+		if res[dir] == nil {
+			res[dir] = map[string]map[string]string{}
+		}
+		if res[dir][typ] == nil {
+			res[dir][typ] = map[string]string{}
+		}
+		log = append(log, fmt.Sprintf("struct type %s is taken for the renamed %s (same field types in the same order, the old type is gone); it is analysed under its confirmed name", nw[strings.Index(nw, ":")+1:], old))
+	}
 	return res, log
 }
 
@@ -1218,9 +1335,18 @@ func (pi *preInliner) undoFieldRenames() {
 		}
 		objs := map[types.Object]string{}
 		for typ, m := range ren[relDir] {
-			tn, _ := pkg.Types.Scope().Lookup(typ).(*types.TypeName)
+			curName := typ
+			for nw, old := range typeAliases {
+				if old == relDir+":"+typ {
+					curName = nw[strings.Index(nw, ":")+1:]
+				}
+			}
+			tn, _ := pkg.Types.Scope().Lookup(curName).(*types.TypeName)
 			if tn == nil {
 				continue
+			}
+			if curName != typ {
+				objs[tn] = typ
 			}
 			st, ok := tn.Type().Underlying().(*types.Struct)
 			if !ok {
